@@ -1,13 +1,13 @@
 SPECIFICATION MCSpec
 CONSTANTS Design = "repaired"
-          MaxLogs = 2
+          MaxLogs = 3
           MaxCycles = 1
-          MaxAdv = 2
-          MaxReads = 1
-          MaxExt = 1
-          MaxFaults = 0
-          MaxLoggers = 1
-          MaxSwitch = 0
-          Slim = FALSE
+          MaxAdv = 1
+          MaxReads = 0
+          MaxExt = 0
+          MaxFaults = 1
+          MaxLoggers = 2
+          MaxSwitch = 3
+          Slim = TRUE
 INVARIANTS LinesWholeInOrder FileNameRight RotatesAfterCycle SuppressedOnlyWithin RetentionExact ReadHonest NoFaultNoLoss SurvivorsSurvive OldRemoved Recovers
 CHECK_DEADLOCK FALSE
